@@ -1,6 +1,7 @@
 /- Wire format between the Rust harness and the model driver (DESIGN.md appendix A). -/
 import Preflate.Model.Deflate
 import Preflate.Model.Spec
+import Preflate.Model.SpecRFC
 namespace Preflate.Driver
 open Preflate
 
@@ -71,6 +72,12 @@ def rewriteLine (d : List UInt8) : String :=
 /-- `spec` request: the RFC-table inflater -/
 def specLine (d : List UInt8) : String :=
   match Spec.inflate d with
+  | some (plain, n) => s!"ok {fnvNatsAsBytes plain.toList} {n}"
+  | none => "reject"
+
+/-- the same stream through the INDEPENDENT RFC/zlib reading of the dynamic header (Model/SpecRFC.lean) -/
+def specRfcLine (d : List UInt8) : String :=
+  match SpecRFC.inflate d with
   | some (plain, n) => s!"ok {fnvNatsAsBytes plain.toList} {n}"
   | none => "reject"
 
